@@ -317,13 +317,68 @@ class C14(DiffProperty):
                "node that is still linked or an ancestor of the position; merging lists of the same tree); the same guard "
                "is evaluated by harness, model and specification"]
     level = "proof"
-    level_text = ""
-    level_note = ""
+    level_text = ("proof (partial for merge/swap/switch): Coq theorems C14_step_refines_forest / "
+                  "C14_history_refines_forest_partial / C14_wf_preserved_partial / C14_released_once / "
+                  "C14_clone_equal_shape state, for every heap that represents an ordered forest (any number of nodes, "
+                  "depth, names) and every history over new, gnode_after/before, gnode_add/node_add and "
+                  "gnode_insert/node_insert at every position code (by position and by name), unlink, node/list/tree "
+                  "clone, clear, destroy, relink and the three traversal orders, that the transcribed pointer mechanism "
+                  "never dereferences NULL or freed memory, never frees twice, returns what the forest operation returns "
+                  "and after EVERY step has exactly the links the resulting forest dictates (next/prev agree, every child "
+                  "names its parent, children = list head, acyclic, single reachability), that every id is in the forest "
+                  "once or freed once, and that a cloned list has the source's shape at every depth with parent links; "
+                  "mpt_node_move (merge), gnode_swap, gnode_switch and the final clean-up are modelled and specified but "
+                  "their refinement is not proved; the model is tied to the code on every run by differential execution "
+                  "of histories under ASan/UBSan/LSan with a full raw-link dump and an independent well-formedness verdict "
+                  "after every operation")
+    level_note = ("partial: the history theorems carry the hypothesis 'Forall proved ops'; node_move/lmove (merge with "
+                  "overlapping names), gnode_swap, gnode_switch and the harness clean-up (unlink+destroy of every root) are "
+                  "outside 'proved' and are covered by the correspondence run and the specification oracle only. Trusted: "
+                  "Coq kernel; hand transcription of mptcore/node/*.c (validated by the correspondence run, not verified); "
+                  "names are modelled as 4 codes with equality (identifier charset/length variants of mpt_node_locate are "
+                  "not modelled); malloc failure, level-order traversal, node_find/node_next not modelled; the guards of "
+                  "the history language (insert only unlinked nodes, never below themselves; merge lists of different "
+                  "trees) are callers' obligations, evaluated identically by harness, model and specification; extraction "
+                  "(ExtrOcamlBasic) and OCaml driver; harness. Theorems are closed under the global context (no axioms).")
     technique = "Coq refinement proof (pointer heap -> ordered forests) + differential correspondence check"
     assumptions = ["malloc succeeds", "callers insert only unlinked nodes and never below themselves (guards of the history language)"]
 
+    harness_args = ("3",)   # per-case timeout in seconds (a cyclic list makes the library loop for ever)
+
     def split(self, case):
         return [], split_ops(case)
+
+    def fail_op(self, case, r, kind):
+        d = r.get(kind)
+        if d is None or d[0] < 0:
+            return None
+        ops = split_ops(case)
+        return ops[d[0]][0] if d[0] < len(ops) else "?"
+
+    def shrink(self, case, kind, workdir, budget=12):
+        """greedy shrink that keeps the operation at which the traces first differ, so that
+        different defects are not shrunk into the same smallest one"""
+        res, _ = self.evaluate([case], workdir, tagsuffix="_shr0")
+        want = self.fail_op(case, res[0], kind)
+        cur = case
+        for rnd in range(budget):
+            cands = []
+            seen = set()
+            for c in self.shrink_candidates(cur):
+                if c not in seen and c != cur:
+                    seen.add(c)
+                    cands.append(c)
+                if len(cands) >= 400:
+                    break
+            if not cands:
+                break
+            res, _ = self.evaluate(cands, workdir, tagsuffix="_shr")
+            better = [c for c, r in zip(cands, res) if r[kind] is not None and r[kind][0] >= 0
+                      and (want is None or self.fail_op(c, r, kind) == want)]
+            if not better:
+                break
+            cur = min(better, key=len)
+        return cur
 
     def project(self, tok):
         # property level: result, freed pattern, well-formedness verdict, shape (not the raw link table)
@@ -487,6 +542,41 @@ class C14(DiffProperty):
         else:
             emit([k, p, pos(len(tr.kids[p])), x])
 
+    def gen_merge(self, rng):
+        """two trees of depth 3 with overlapping names, merged, then cleared / cloned / destroyed"""
+        ops = []
+        n = 0
+
+        def tree(names2):
+            nonlocal n
+            root = n
+            ops.append("new c %d" % rng.choice([0, 1]))
+            n += 1
+            for nm in names2:
+                k = n
+                ops.append("new %s %d" % (nm, rng.choice([0, 0, 2])))
+                n += 1
+                ops.append("%s %d %d %d" % (rng.choice(["ins", "nins"]), root, rng.choice([0, 0, 1, -1]), k))
+                for _ in range(rng.choice([0, 1, 1, 2])):
+                    ops.append("new %s 0" % rng.choice("ab"))
+                    ops.append("%s %d %d %d" % (rng.choice(["ins", "nins"]), k, rng.choice([0, 1, -1]), n))
+                    n += 1
+            return root
+        a = tree([rng.choice("ab") for _ in range(rng.choice([1, 2, 2]))])
+        b = tree([rng.choice("ab") for _ in range(rng.choice([1, 2, 2]))])
+        if rng.random() < 0.7:
+            ops.append("move %d %d" % (a, b + 1))
+            if rng.random() < 0.6:
+                ops.append("clear %d" % a)     # what mpt_parse_node does after the merge
+        else:
+            ops.append("unlink %d" % (a + 1))
+            ops.append("lmove %d %d" % (a + 1, b + 1))
+        for _ in range(rng.choice([0, 1, 2, 3])):
+            x = rng.randrange(n)
+            ops.append(rng.choice(["tclone %d", "lclone %d", "clear %d", "unlink %d", "destroy %d", "trav pre 3 %d",
+                                   "relink %d", "trav in 3 %d", "trav post 1 %d"]) % x)
+        return " ".join(ops) + " end"
+
     def exhaustive_small(self):
         """every way to link a 4th node into each of a few 3-node shapes, every position code"""
         cases = []
@@ -527,12 +617,52 @@ class C14(DiffProperty):
                     cases.append(t1 + " " + t2 + " unlink 1 lmove 1 5 end")
         return cases
 
+    def small_ops(self, full):
+        """single operations over the node indices 0..3 (3 is only ever the spare node)"""
+        ops = []
+        for p in range(3):
+            for x in range(4):
+                if p == x:
+                    continue
+                if full:
+                    ops += ["after %d %d" % (p, x), "before %d %d" % (p, x)]
+                    for q in (0, 1, -1, 2, -2):
+                        for k in ("add", "nadd", "ins", "nins"):
+                            ops.append("%s %d %d %d" % (k, p, q, x))
+                    ops += ["move %d %d" % (p, x), "switch %d %d" % (p, x), "lmove %d %d" % (p, x), "swap %d %d" % (p, x)]
+                else:
+                    ops += ["before %d %d" % (p, x), "nins %d 0 %d" % (p, x), "add %d -1 %d" % (p, x), "move %d %d" % (p, x)]
+        for x in range(4):
+            ops += ["unlink %d" % x, "destroy %d" % x, "tclone %d" % x]
+            if full:
+                ops += ["clear %d" % x, "lclone %d" % x, "clone %d" % x, "relink %d" % x]
+        return ops
+
+    def exhaustive_histories(self, rng):
+        """thorough tier: every history of 2 operations (full set) on two start shapes over 4 nodes with
+        overlapping names, plus a sample of the histories of 3 operations over a reduced set"""
+        cases = []
+        starts = ["new a 0 new b 1 new a 0 new b 0 ins 0 0 1 ins 0 0 2",          # 0(1,2) 3
+                  "new a 0 new a 1 new b 0 new a 0 ins 0 0 1 ins 1 0 2"]          # 0(1(2)) 3
+        full, red = self.small_ops(True), self.small_ops(False)
+        for st in starts:
+            for a in full:
+                for b in full:
+                    cases.append("%s %s %s end" % (st, a, b))
+        for _ in range(40000):
+            cases.append("%s %s %s %s end" % (rng.choice(starts), rng.choice(red), rng.choice(red), rng.choice(red)))
+        return cases
+
     def generate(self, rng, tier):
         cases = self.exhaustive_small()
-        n = 1800 if tier == "quick" else 60000
+        if tier != "quick":
+            cases += self.exhaustive_histories(rng)
+        n = 1800 if tier == "quick" else 40000
         for i in range(n):
             nops = rng.choice([4, 8, 12, 16, 20, 20])
             cases.append(self.gen_history(rng, nops, 8, 28))
+        for i in range(n // 4):
+            cases.append(self.gen_merge(rng))
         return cases
 
 
